@@ -1,5 +1,6 @@
 """C08 - tempo, time-signature and anchor lines decode to exact values."""
 from vf.runner import Ob
+from .common import _sync_section, _two_maps, _e2e  # noqa: F401
 from .common import *  # noqa: F401,F403
 
 LEVEL = "model_checking"
@@ -23,6 +24,7 @@ def obligations(tier):
                           bounds=f"symbolic ASCII digit string of <={maxd} digits; absent third TS group -> None"))
     obs.append(Ob("C08.bpm_event_dataflow", "CH", "harness.h_sync", "bpm_event_dataflow", 120, funcs=(SY + "BPMEvent.from_parsed_data",)))
     obs.append(Ob("C08.dispatch_wiring", "CH", "harness.h_track", "track_dispatch_wiring", 300, {"VF_TRACK": 1}, funcs=(SY + "SyncTrack._parse_data_from_chart_lines",)))
+    obs += _sync_section("C08", ["0,1,3", "0,2,1", "1,1,1"] if tier == "quick" else ["0,1,3", "0,2,1", "1,1,1", "3,0,2", "2,2,0", "0,1"])
     return obs
 
 
